@@ -5,6 +5,16 @@ plain walk of parent links.  Core-only.
 -/
 namespace BV.C17.Spec
 
+/-- block status flag bits (pinned against the code's values in Props) -/
+def STATUS_DATA_STORED : Nat := 1
+def STATUS_VALID : Nat := 2
+def STATUS_VALIDATE_FAILED : Nat := 4
+def STATUS_INVALID_ANCESTOR : Nat := 8
+def STATUS_HEADER_STORED : Nat := 16
+/-- wire limits: headers per `headers` message, hashes per locator -/
+def MAX_HEADERS_PER_MSG : Nat := 2000
+def MAX_LOCATORS_PER_MSG : Nat := 500
+
 /-- the tree given by a parent list: node 0 is the root, node `i+1` has parent `ps[i]` -/
 def parentOf (ps : List Nat) (n : Nat) : Option Nat := if n = 0 then none else ps[n - 1]?
 
